@@ -406,4 +406,12 @@ def _z3v():
 
 
 if __name__ == '__main__':
-    sys.exit(main())
+    try:
+        rc = main()
+    except SystemExit:
+        raise
+    except BaseException as e:  # a crash of the machinery is never a verdict
+        traceback.print_exc()
+        print('INCONCLUSIVE harness error: %s: %s' % (type(e).__name__, e))
+        rc = 2
+    sys.exit(rc)
